@@ -126,6 +126,24 @@ struct AtomicLog {
 }
 
 static ATOMIC_LOG: Mutex<AtomicLog> = Mutex::new(AtomicLog { enabled: false, events: Vec::new() });
+
+// Traced atomics that have been used so far (they are statics, so the addresses stay valid).
+static REGISTRY: Mutex<Vec<usize>> = Mutex::new(Vec::new());
+
+/// Stores `value` into every traced atomic that has been used so far (test control: lets a test move a
+/// counter close to a power of two without making billions of calls). Logged as a `"jump"` event.
+pub fn force_store_all(value: usize) {
+    let reg = REGISTRY.lock().unwrap().clone();
+    for addr in reg {
+        let a = unsafe { &*(addr as *const AtomicUsize) };
+        let mut log = ATOMIC_LOG.lock().unwrap();
+        let old = a.inner.swap(value, Ordering::SeqCst);
+        if log.enabled {
+            let seq = log.events.len();
+            log.events.push(AtomicEvent { seq, thread: THREAD_TAG.with(|t| t.get()), op: "jump", old, new: value });
+        }
+    }
+}
 static GATE: Mutex<Option<Gate>> = Mutex::new(None);
 
 /// Sets the tag that identifies the current thread in atomic events.
@@ -176,6 +194,11 @@ impl AtomicUsize {
 
     fn traced<F: FnOnce(&std::sync::atomic::AtomicUsize) -> (&'static str, usize, usize)>(&self, gate_op: &'static str, f: F) -> (usize, usize) {
         pass_gate(gate_op);
+        {
+            let addr = self as *const AtomicUsize as usize;
+            let mut reg = REGISTRY.lock().unwrap();
+            if !reg.contains(&addr) { reg.push(addr); }
+        }
         let mut log = ATOMIC_LOG.lock().unwrap();
         let (op, old, new) = f(&self.inner);
         if log.enabled {
